@@ -122,6 +122,15 @@ func (c *Ctx) ruleAcceptedEnqueued(rr *RuleRep) {
 			switch {
 			case inner == ssa.Value(push):
 				// nil iff pushTask returned nil
+			case isNilConst(inner) && func() bool {
+				for _, e := range nonNilEdges(m, push) {
+					if DominatedByEdge(m, ret, e.B, 1-e.K, PathQ{}) {
+						return true
+					}
+				}
+				return false
+			}():
+				// `return nil` on the edge where pushTask returned nil: accepted and enqueued
 			case func() bool {
 				for _, e := range nonNilEdges(m, inner) {
 					if DominatedByEdge(m, ret, e.B, e.K, PathQ{}) {
